@@ -44,6 +44,12 @@ CLAIMS = {
         'the two prange phases take stripes 2i and 2i+1 (weights alike) covering every stripe once within the stripe table, one coord drives key and grid axis, key = min(int(x*P/box),P-1), footprint is 3 cells, no other shared store.',
    note='The stripe lemma itself (3-cell clouds of stripes >=3 wide and two apart are disjoint; P even handles the periodic seam) is a paper argument in DESIGN.md. Float32 rounding of keys at exact stripe boundaries not modelled; numeric equality with the serial sum is not decided.',
    design_ref='DESIGN.md section 4, C07'),
+ 'C17': dict(
+   technique='static analysis: ownership classification of stores under prange + structural layout/agreement rules on the counting sort + linear-integer bounds prover relative to documented preconditions',
+   text='Decides the structure that makes partition_parallel a stripe-ordered permutation for every thread count: private key/histogram/cursor ranges, identical block table and keys in both passes, '
+        'transposed exclusive prefix sum paired with its reshape, stripe offsets copied before the scatter, weights moved with the same cursor and source row, inputs never stored to, all subscripts in bounds.',
+   note='Assumed (listed in the evidence): positions in [0,boxsize) so keys are >= 0; cursors stay inside [0,N) by the prefix-sum construction. Not decided: float32 rounding of keys at stripe boundaries; numerical correctness of np.cumsum.',
+   design_ref='DESIGN.md section 4, C17'),
 }
 _NB = 'rule family not built yet in this session (claimed only once its checker exists; see DESIGN.md section 4)'
 NOT_APPLICABLE = {f'C{n:02d}': _NB for n in range(1, 21) if f'C{n:02d}' not in CLAIMS}
